@@ -273,7 +273,8 @@ _N = 'pero_ocr/layout_engines/naive_sorter.py'
 
 def canaries(tier):
     q = [t for t in tasks('quick')]
-    qs = [t for t in q if t['mode'] == 'smart' and t['n'] >= 2]
+    # two regions, plus one three-region arrangement (all of them made each canary run as long as the tier itself)
+    qs = [t for t in q if t['mode'] == 'smart' and t['n'] == 2 and not t.get('deskew')] + [t for t in q if t['mode'] == 'smart' and t['n'] == 3 and t.get('ypat') and not t.get('deskew')][:1]
     qn = [t for t in q if t['mode'] == 'naive']
     return [
         {'name': 'naive sorter without the guard for fewer than two regions (the defect repaired by the fix: commit)',
